@@ -302,7 +302,7 @@ func (g *c05Gen) c05LimOps() []c05Op {
 // notifications around a NEO / GAS transfer must HALT with the funds moved, the event emitted and the answer true.
 // Evaluated in Go only (the Coq model is of the Echidna rules); returns the violations.
 func c05PreEchidna(r *rng) (in c05Input, viol []string, err error) {
-	in.HF = "domovoi"
+	in.HF, in.Direct = "domovoi", true
 	t := &c05TB{}
 	c, err := c05Setup(t, in.HF, nil)
 	if err != nil {
